@@ -3,6 +3,7 @@
 -/
 import PyTough.Proofs.ConvertSpec
 import PyTough.Proofs.ConvertWaiwera
+import PyTough.Proofs.ConvertOrder
 namespace Props.C20
 open Py Model.Convert Gen.ConvertTables Proofs.Convert
 
@@ -414,6 +415,35 @@ theorem type_setter_dispatch (v : Str) (d : T2) :
       simp [h1, h2]
 
 
+/-! ## the section list stays readable
+
+  `Ordered secs`: the keywords of `secs` are keywords of `t2data_sections`, in its relative order,
+  none twice — what `read` leaves in `_sections` for a file PyTOUGH itself wrote, and what `read`
+  needs (ROCKS before ELEME before CONNE before GENER, SHORT, FOFT, COFT, GOFT). -/
+
+/-- `insert_section`, `delete_section` and `update_sections` keep a section list in standard order. -/
+theorem section_ops_keep_order (d : T2) (s : Str) (ho : Ordered d.sections) :
+    (s ∈ sections → Ordered (insertSection d s).sections) ∧ Ordered (deleteSection d s).sections ∧
+    Ordered (updateSections d).sections :=
+  ⟨fun hs => ordered_insert _ _ ho hs, ordered_erase _ _ ho,
+   ordered_updateSectionsL _ _ (fun k hk => (mem_presentSections d k).mp hk |>.1) ho⟩
+
+/-- After either conversion the section list is still in standard order, and so is the list `write`
+    prints (after `update_sections`), which holds each present section exactly once: the converted
+    model is written as a file whose sections `read` meets in the order it needs. -/
+theorem converted_sections_ordered (d d' : T2) (ho : Ordered d.sections)
+    (h : (∃ mp, convertToTough2 mp d = (d', none)) ∨ (∃ mp sim eos, convertToAutough2 mp sim eos d = (d', none))) :
+    Ordered d'.sections ∧ Ordered (updateSections d').sections ∧ (updateSections d').sections.Nodup ∧
+    ∀ k, k ∈ (updateSections d').sections ↔ k ∈ sections ∧ dataPresent d' k = true := by
+  have hd' : Ordered d'.sections := by
+    rcases h with ⟨mp, h⟩ | ⟨mp, sim, eos, h⟩
+    · obtain ⟨st, _, rfl⟩ := convertToTough2_ok h
+      exact ordered_erase _ _ (ordered_erase _ _ ho)
+    · obtain ⟨ty, _, rfl⟩ := convertToAutough2_ok h
+      exact ordered_insert _ _ (ordered_insert _ _ ho (by decide)) (by decide)
+  have hu := ordered_updateSectionsL (presentSections d') d'.sections (fun k hk => (mem_presentSections d' k).mp hk |>.1) hd'
+  exact ⟨hd', hu, ordered_nodup _ hu, mem_updateSections d'⟩
+
 /-! ## add_generator / delete_generator, insert_section / delete_section -/
 
 /-- `add_generator` appends the generator and makes the lookup entry of its (block, name) point to it. -/
@@ -777,6 +807,9 @@ example : sampleT'.simulator = "AUTOUGH2.2EW".toList ∧ sampleT'.filename = "mo
     (updateSections sampleT').sections = [SIMUL, ROCKS, PARAM, LINEQ, MULTI, ELEME, CONNE, GENER, SHORT] ∧
     sampleT'.short.block = some [.blk "  a 1".toList] ∧ Dict.get? sampleT'.lineq kType = some (.int 2) ∧
     sampleT'.option = [0,0,0,0,0,0,0,0,0,0,0,0,0,0,0,0,0,0,0,0,0,0,0,0,0] := by decide
+-- both samples list their sections in standard order
+example : Ordered sampleA.sections ∧ Ordered sampleT.sections ∧ SHORT ∈ sections := by
+  unfold Ordered; decide
 -- add / delete a generator on the sample
 example : (deleteGenerator sampleA ("  b 1".toList, "wel 2".toList)).2 = none ∧
     (deleteGenerator sampleA ("  b 1".toList, "nope ".toList)).2 = some .keyError ∧
